@@ -486,6 +486,54 @@ def gen_reqresp(rng, mode=None):
     return build_case(cfg, body, "reqresp-" + cfg["mode"])
 
 
+def gen_parked(rng, mode=None):
+    """The writer fills the receiver's channel (tcp_capacity unread data segments) and closes;
+    everything is delivered while the reader is idle, so the FIN is parked in the reorder
+    buffer; then the reader drains with a pattern of peeks and reads (peek-then-read only,
+    reads only, mixed, various buffer sizes) until well past EOF."""
+    cfg = base_cfg(rng, mode)
+    c, s = hosts_of(cfg)
+    remote = cfg["mode"] == "remote"
+    by = Bytes()
+    held = remote and rng.random() < 0.85
+    w_host, w_sid, r_host, r_sid = (c, CLIENT_SID, s, SERVER_SID) if rng.random() < 0.5 else (s, SERVER_SID, c, CLIENT_SID)
+    cap = cfg["cap"]
+    nseg = rng.choice([cap, cap, cap, max(1, cap - 1), cap + 1])
+    wc = [[rng.choice(["try_write", "try_write", "write"]), w_sid, by.take(rng.choice([1, 2, 3]))] for _ in range(nseg)]
+    wc.append(rng.choice([["shutdown", w_sid], ["shutdown", w_sid], ["drop_w", w_sid]]))
+    body = [{"ctl": [["hold", c, s]] if held else [], "hosts": {str(w_host): wc}}]
+    if rng.random() < 0.2:      # the reader takes a little before the rest arrives
+        body.append({"ctl": [["deliver", c, s, 0]] if held else [], "hosts": {}})
+        body.append({"ctl": [], "hosts": {str(r_host): [rng.choice([["peek", r_sid, 1], ["read", r_sid, 1]])]}})
+    order = list(range(nseg + 1))
+    rng.shuffle(order)
+    remaining = list(range(nseg + 1))
+    for p in order:
+        idx = remaining.index(p)
+        remaining.remove(p)
+        body.append({"ctl": [["deliver", c, s, idx]] if held else [], "hosts": {}})
+    body.append({"ctl": [], "hosts": {}})
+    pat = rng.choice(["peekread", "peekread", "peekread1", "reads", "mixed", "mixed"])
+    big = rng.choice([64, 64, 3])
+    for t in range(2 * nseg + 8):
+        if pat == "peekread":
+            ops = [["peek", r_sid, rng.choice([1, 64])], ["read", r_sid, big]]
+        elif pat == "peekread1":
+            ops = [["peek", r_sid, 1], ["read", r_sid, 1], ["read", r_sid, 64]]
+        elif pat == "reads":
+            ops = [["read", r_sid, rng.choice([1, big])]]
+        else:
+            ops = [rng.choice([["peek", r_sid, 1], ["peek", r_sid, 64], ["read", r_sid, 1], ["read", r_sid, 64],
+                               ["read", r_sid, 0]]) for _ in range(rng.choice([1, 2, 3]))]
+        extra = {}
+        if t == 1 and nseg > cap:           # the writer retries what was refused
+            extra[str(w_host)] = [["try_write", w_sid, by.take(1)]]
+        hosts = {str(r_host): ops}
+        hosts.update(extra)
+        body.append({"ctl": [["deliver", c, s, 0]] if held else [], "hosts": hosts})
+    return build_case(cfg, body, "parked-" + cfg["mode"])
+
+
 def perm_case(cap, nseg, perm, reads_between, client=0, rn=64, v6=False):
     """Writer sends nseg-1 data segments and a FIN in one step (capacity
     permitting); the held link delivers them in the order `perm`; the reader
